@@ -148,20 +148,20 @@ Qed.
 (* ---------- every schedule of the pipeline and the writer goroutines ---------- *)
 (* rtcmfilter = the pipeline of Pipe.v whose consumers are the writer goroutines; what writer i
    has written is filter_output of what it has received. *)
-Theorem filter_every_schedule t0 segs tail (k : nat) (live : nat -> bool) cap0 cap1 caps :
+Theorem filter_every_schedule t0 segs tail (k : nat) (live sync : nat -> bool) cap0 cap1 caps :
   wf_segsb segs = true -> tail_ok tail ->
   (1 <= cap0)%nat -> (1 <= cap1)%nat -> length caps = k -> Forall (fun c => (1 <= c)%nat) caps ->
   exists n, forall m c,
-    steps _ (nstep _ _ _ (Pipe.prog N msg (list N) (fun acc b => (acc ++ [b], [])) (frame_flush t0) k live)
+    steps _ (nstep _ _ _ (Pipe.prog N msg (list N) (fun acc b => (acc ++ [b], [])) (frame_flush t0) k live sync)
                    Pipe.sender Pipe.receiver (SkDone _ _ _)) m
           (Pipe.init N msg (list N) k cap0 cap1 caps (flatten segs ++ tail) []) c ->
     (m <= n)%nat /\
-    (final_config _ _ _ (Pipe.prog N msg (list N) (fun acc b => (acc ++ [b], [])) (frame_flush t0) k live)
+    (final_config _ _ _ (Pipe.prog N msg (list N) (fun acc b => (acc ++ [b], [])) (frame_flush t0) k live sync)
                   Pipe.sender Pipe.receiver (SkDone _ _ _) c ->
      forall i, (i < k)%nat -> live i = true -> filter_output (sink_out N msg (list N) c i) = frames_of segs).
 Proof.
   intros W T H0 H1 Hl Hc.
-  destruct (pipeline_frames t0 (flatten segs ++ tail) k live cap0 cap1 caps H0 H1 Hl Hc) as (ms & h' & Hms & n & Hn).
+  destruct (pipeline_frames t0 (flatten segs ++ tail) k live sync cap0 cap1 caps H0 H1 Hl Hc) as (ms & h' & Hms & n & Hn).
   destruct (filter_segments (new_handler t0) segs tail W T) as (ms2 & h2 & Hms2 & Hout).
   rewrite Hms in Hms2. injection Hms2 as <- <-.
   exists n. intros m c Hm. destruct (Hn m c Hm) as [Hle Hfin]. split; [exact Hle|].
